@@ -25,6 +25,8 @@ enum TState {
 #[derive(Debug)]
 struct T {
     os: ThreadId,
+    /// kernel thread id (for /proc/self/task/<tid>)
+    ktid: i64,
     kind: String,
     harness: bool,
     state: TState,
@@ -67,6 +69,8 @@ struct Inner {
     nonblocking_locks: Vec<&'static str>,
     detect_real_blocking: bool,
     last_progress: Instant,
+    /// consecutive observations of the running thread sleeping in a futex wait
+    asleep: u32,
     log: Vec<String>,
     keep_log: bool,
 }
@@ -87,6 +91,18 @@ impl Drop for Guard {
     fn drop(&mut self) {
         self.sched.finished(self.tid);
     }
+}
+
+/// The kernel says the thread sleeps in a futex wait.
+fn kernel_blocked(ktid: i64) -> bool {
+    let stat = std::fs::read_to_string(format!("/proc/self/task/{ktid}/stat")).unwrap_or_default();
+    // pid (comm) state ...
+    let state = stat.rsplit(')').next().and_then(|r| r.trim_start().chars().next()).unwrap_or('R');
+    if state != 'S' {
+        return false;
+    }
+    let wchan = std::fs::read_to_string(format!("/proc/self/task/{ktid}/wchan")).unwrap_or_default();
+    wchan.starts_with("futex") || wchan == "0" || wchan.is_empty()
 }
 
 fn kind_of_thread_name(name: &str) -> Option<&'static str> {
@@ -117,8 +133,8 @@ pub struct SchedCfg {
     /// lock kinds whose `Acquire` is only a scheduling point: the thread then really blocks on
     /// the primitive (needs `detect_real_blocking`)
     pub nonblocking_locks: Vec<&'static str>,
-    /// a granted thread that does not reach its next hook within 120 ms is taken for blocked on
-    /// an unmodelled primitive; the token goes to another thread, the blocked one re-joins the
+    /// a granted thread that the kernel reports as sleeping in a futex wait for 5 consecutive
+    /// observations (10 ms apart) is taken for blocked on an unmodelled primitive; the token goes to another thread, the blocked one re-joins the
     /// protocol at its next hook
     pub detect_real_blocking: bool,
 }
@@ -145,6 +161,7 @@ impl Sched {
                 nonblocking_locks: cfg.nonblocking_locks,
                 detect_real_blocking: cfg.detect_real_blocking,
                 last_progress: Instant::now(),
+                asleep: 0,
                 log: Vec::new(),
                 keep_log: cfg.keep_log,
             }),
@@ -202,6 +219,7 @@ impl Sched {
         g.threads[tid].state = TState::Running;
         g.running = Some(tid);
         g.last_progress = Instant::now();
+        g.asleep = 0;
     }
 
     /// Chooses the next thread to run. `from` is the thread that made the step (now parked or
@@ -288,12 +306,21 @@ impl Sched {
             if g.detect_real_blocking {
                 let (ng, to) = self
                     .cv
-                    .wait_timeout(g, Duration::from_millis(30))
+                    .wait_timeout(g, Duration::from_millis(10))
                     .unwrap_or_else(|e| e.into_inner());
                 g = ng;
                 if to.timed_out() {
                     if let Some(r) = g.running {
-                        if g.threads[r].state == TState::Running && g.last_progress.elapsed() > Duration::from_millis(120) {
+                        // independent of machine load: a thread that merely waits for a CPU is
+                        // runnable ('R'); only a thread that sleeps in a futex wait (mutex, join)
+                        // for several consecutive observations is blocked
+                        if g.threads[r].state == TState::Running && kernel_blocked(g.threads[r].ktid) {
+                            g.asleep += 1;
+                        } else {
+                            g.asleep = 0;
+                        }
+                        if g.threads[r].state == TState::Running && (g.asleep >= 5 || g.last_progress.elapsed() > Duration::from_secs(3)) {
+                            g.asleep = 0;
                             g.threads[r].state = TState::Blocked;
                             if g.keep_log {
                                 g.log.push(format!("T{r} blocks for real"));
@@ -314,6 +341,8 @@ impl Sched {
         let tid = g.threads.len();
         g.threads.push(T {
             os: std::thread::current().id(),
+            // SAFETY: plain syscall without arguments
+            ktid: unsafe { libc::syscall(libc::SYS_gettid) } as i64,
             kind: kind.to_string(),
             harness,
             state: TState::Parked,
@@ -455,6 +484,7 @@ impl Sched {
         g.threads[tid].state = TState::Running;
         g.running = Some(tid);
         g.last_progress = Instant::now();
+        g.asleep = 0;
     }
 
     /// Spawns a controlled harness thread; returns when the child is parked at its start point.
